@@ -709,6 +709,18 @@ class C08(Property):
             cases.append({'kind': 'homog', 'family': 'pivot', 'eqs': sel, 'logK': [round(POOL[nm][2] + rng.uniform(-1.5, 1.5), 6) for nm in sel],
                           'subs': subs, 'init': [55.5 if s_ == 'H2O' else float('%.6g' % 10 ** rng.uniform(-4, -1)) for s_ in subs],
                           'variant': pv_chains[j % len(pv_chains)], 'rref': [bool((j // 5) % 2), bool((j // 10) % 2)]})
+        # precipitation x reduction configuration x under-/super-saturated start (solid initially present or not) x chain
+        sr_chains = ['default', 'log', 'loglin', 'lin', 'square', 'condchain']
+        for j in range(max(24, n // 20)):
+            nm = rng.choice(list(SALTS))
+            solid, ions, lk = SALTS[nm]
+            subs = list(ions) + [solid]
+            rng.shuffle(subs)
+            init = [float('%.4g' % 10 ** rng.uniform(-4, -0.5)) if s_ != solid else rng.choice([0.0, float('%.3g' % 10 ** rng.uniform(-3, -1))]) for s_ in subs]
+            lip = sum(v * math.log10(init[subs.index(k_)]) for k_, v in ions.items())
+            cases.append({'kind': 'salt', 'family': 'saltrref', 'salt': nm, 'logKsp': round(lip + (1.5 if (j // 2) % 2 == 0 else -1.5) + rng.uniform(-0.4, 0.4), 6),
+                          'flip': rng.random() < 0.5, 'subs': subs, 'init': init, 'variant': sr_chains[j % len(sr_chains)],
+                          'rref': [j % 2 == 0 or j % 5 == 0, (j // 6) % 3 == 2]})
         # structural: stage i of a multi-stage chain is built from NumSys class i
         chains = [['log', 'lin'], ['lin', 'log'], ['log', 'square'], ['square', 'lin'], ['log', 'lin', 'square']]
         types = ['chained_conditional', 'chained_conditional', 'conditional_chained', 'static_conditions']
@@ -1739,6 +1751,11 @@ class C08(Property):
                     r['maxfun'] = float(np.max(np.abs(np.asarray([float(v) for v in f]))))
                 except Exception:
                     r['maxfun'] = None
+            if (r.get('maxfun') is not None and r['maxfun'] != r['maxfun'] and r.get('inner_success') is True
+                    and isinstance(failure, str) and 'reports success and a sane result' in failure):
+                # finding `nan-residual-reported-as-success`: with rref_equil=True and a formulation whose `small` is 0 (Lin) a switched-off solid
+                # puts ln(0) = -inf into the row reduction; the residual is NaN, the solver returns its starting point and reports success
+                return 'nan-residual-reported-as-success'
             if (r.get('maxfun') is not None and r['maxfun'] > 1e-8 and r.get('inner_success') is True
                     and isinstance(failure, str) and 'reports success and a sane result' in failure):
                 return 'lm-nonroot-reported-as-success'
